@@ -110,6 +110,42 @@ def gen_partial():
     out = HEADER.format(src="pdpy11/{types,metacommands,radix50,parser,insns}.py (guarded partial operations) by tools/gens/gen_partial.py")
     out += "Open Scope N_scope.\n\n"
 
+    # ---- deferred.wait: the loop the model Model/WaitModel.v transliterates, and its `seen` bound -----------------
+    tree, _ = parse("pdpy11/deferred.py")
+    wait = find_def(tree, "wait")
+    need(len(wait.body) == 3, "deferred.wait: body changed")
+    dump_eq(wait.body[0], "seen = []", "deferred.wait: seen")
+    loop = wait.body[1]
+    need(isinstance(loop, ast.While) and ast.unparse(loop.test) == "isinstance(deferred, BaseDeferred)" and len(loop.body) == 3 and not loop.orelse,
+         "deferred.wait: loop changed")
+    chk = loop.body[0]
+    need(isinstance(chk, ast.If) and not chk.orelse and isinstance(chk.test, ast.BoolOp) and isinstance(chk.test.op, ast.Or) and len(chk.test.values) == 2,
+         "deferred.wait: cycle check changed")
+    lenchk = chk.test.values[0]
+    need(isinstance(lenchk, ast.Compare) and ast.unparse(lenchk.left) == "len(seen)" and len(lenchk.ops) == 1 and isinstance(lenchk.ops[0], ast.GtE),
+         "deferred.wait: length bound changed")
+    wait_bound = const_int(lenchk.comparators[0], "deferred.wait: bound")
+    need(0 < wait_bound <= 100000, "deferred.wait: implausible bound")
+    dump_eq(chk.test.values[1], "any(deferred is prev for prev in seen)", "deferred.wait: identity check")
+    dump_eq(chk.body[0], "raise DeferredCycle()", "deferred.wait: raise")
+    dump_eq(loop.body[1], "seen.append(deferred)", "deferred.wait: append")
+    dump_eq(loop.body[2], "deferred = deferred.wait()", "deferred.wait: step")
+    dump_eq(wait.body[2], "return deferred", "deferred.wait: return")
+    bd = find_class(tree, "BaseDeferred")
+    dump_eq(find_def(bd, "wait"), "def wait(self):\n    with Awaiting(self):\n        return self._wait()", "BaseDeferred.wait")
+    aw = find_class(tree, "Awaiting")
+    dump_eq(find_def(aw, "__enter__"), "def __enter__(self):\n    if self.deferred.is_awaiting:\n        raise DeferredCycle()\n    self.deferred.is_awaiting = True\n"
+            "    Awaiting.awaiting_stack.append(self.deferred)\n    return self", "Awaiting.__enter__")
+    dump_eq(find_def(aw, "__exit__"), "def __exit__(self, exc_type, exc_value, exc_tb):\n    assert Awaiting.awaiting_stack.pop() is self.deferred\n"
+            "    self.deferred.is_awaiting = False", "Awaiting.__exit__")
+    df = find_class(tree, "Deferred")
+    dump_eq(find_def(df, "_wait"), "def _wait(self):\n    if self.settled:\n        return self.value\n    else:\n        self.value = self.fn()\n"
+            "        self.settled = True\n        return self.value", "Deferred._wait")
+    tc = find_class(tree, "TryCompute")
+    need(ast.unparse(find_def(tc, "__exit__").body[-1]) == "return exc_type is NotReadyError or exc_type is DeferredCycle", "TryCompute.__exit__: what it swallows changed")
+    out += "(* deferred.wait: `if len(seen) >= <this> or any(deferred is prev for prev in seen): raise DeferredCycle()` *)\n"
+    out += f"Definition wait_seen_bound : nat := {wait_bound}%nat.\n\n"
+
     # ---- chr(code) in AngleBracketedChar.resolve ------------------------------------------------------------
     tree, _ = parse("pdpy11/types.py")
     cls = find_class(tree, "AngleBracketedChar")
